@@ -147,10 +147,16 @@ def LMQR.addColumn (fuel : Nat) (s : LMQR α) (v : Nat → α) : LMQR α :=
 @[inline] def rotPair (c s x y : α) : α × α :=
   if c == 1 && s == 0 then (x, y) else (c * x - s * y, s * x + c * y)
 
-/-- `R.col(cc).applyOnTheLeft(r, r+1, G.adjoint())`. -/
+/-- `R.col(cc).applyOnTheLeft(r, r+1, G.adjoint())`.
+    (The rotated pair is computed only when an entry of column `cc` is read: compiled Lean
+    η-expands this definition, so a `let` in front of the `fun` would be re-evaluated on every
+    read, also on reads that merely pass through.) -/
 def rotRows (c s : α) (r cc : Nat) (R : Nat → Nat → α) : Nat → Nat → α :=
-  let p := rotPair c s (R r cc) (R (r + 1) cc)
-  fun i j => if j = cc then (if i = r then p.1 else if i = r + 1 then p.2 else R i j) else R i j
+  fun i j =>
+    if j = cc then
+      (if i = r then (rotPair c s (R r cc) (R (r + 1) cc)).1
+       else if i = r + 1 then (rotPair c s (R r cc) (R (r + 1) cc)).2 else R i j)
+    else R i j
 
 /-- `Q.block(0,0,n,q_idx).applyOnTheRight(r, r+1, G)`. -/
 def rotCols (c s : α) (r : Nat) (Q : Nat → Nat → α) : Nat → Nat → α :=
